@@ -143,7 +143,7 @@ def check(run: lib.Run, audit: dict) -> int:
     run.assumptions = ["strict equality is Python == (True/1/1.0 identified) — DESIGN §6 F16", "str() of floats/containers is an oracle"]
     if not audit["ok"]:
         raise lib.CheckError(f"Lean build/audit failed at {audit['stage']}: {audit.get('log') or audit.get('forbidden') or audit.get('bad_axioms')}")
-    run_cases(run, audit)
+    run_cases(run, audit, scale=run.boost)
     violations = []
     if run.spec_failures:
         path = run.write_replay("spec", {"what": "a path matches differently from the documented target table (Rbacx.matchResource; theorems Rbacx.C05.*)",
